@@ -25,6 +25,19 @@ fn main() {
         for i in 0..n {
             std::fs::write(dir.join(format!("seed-{:03}", i)), vpcheck::c01::corpus_entry(i)).unwrap();
         }
+        // compiler-built section sets, when the compiler corpus exists
+        if let Some(root) = args.get(4) {
+            if let Ok(rd) = std::fs::read_dir(root) {
+                for (k, e) in rd.flatten().enumerate() {
+                    if e.path().is_dir() {
+                        let map = vpcheck::corpus::load_dir(&e.path());
+                        if !map.is_empty() {
+                            std::fs::write(dir.join(format!("real-{:03}", k)), vpcheck::c01::encode_sections(&map, false, 8)).unwrap();
+                        }
+                    }
+                }
+            }
+        }
         return;
     }
     if args[1] == "--worker" {
